@@ -298,6 +298,8 @@ impl TreeSys for OrdFam {
 struct Fam {
     alpha: Vec<X>,
     max_len: usize,
+    /// unsigned element types up to this length
+    unsigned_len: usize,
 }
 impl Fam {
     fn check_word(&self, word: &[u8], ctx: &mut Ctx) {
@@ -311,6 +313,12 @@ impl Fam {
         check_ty::<Option<f64>>(fam, "Option<f64>", word, &x, &self.alpha, ctx);
         check_ty::<i32>(fam, "i32", word, &x, &self.alpha, ctx);
         check_ty::<Option<i32>>(fam, "Option<i32>", word, &x, &self.alpha, ctx);
+        // unsigned element types: no difference of two neighbours may be formed in the element type
+        if x.len() <= self.unsigned_len {
+            check_ty::<u64>(fam, "u64", word, &x, &self.alpha, ctx);
+            check_ty::<Option<u64>>(fam, "Option<u64>", word, &x, &self.alpha, ctx);
+            check_ty::<usize>(fam, "usize", word, &x, &self.alpha, ctx);
+        }
     }
 }
 impl TreeSys for Fam {
@@ -362,6 +370,27 @@ fn check_long(label: &str, x: &[X], alpha: &[X], ctx: &mut Ctx) {
     check_ty::<Option<f64>>(fam, "Option<f64>", &[], x, alpha, ctx);
 }
 
+/// neighbours further apart than the element type's MAX: i32 at its extremes
+fn ext_alpha() -> Vec<X> {
+    vec![None, Some(i32::MIN as f64), Some(-1.0), Some(0.0), Some(i32::MAX as f64)]
+}
+fn check_int_extremes(w: &[u8], ctx: &mut Ctx) {
+    let fam = "order-int-extremes";
+    let alpha = ext_alpha();
+    let x = decode(w, &alpha);
+    ctx.states += 1;
+    ctx.transitions += 1;
+    ctx.fam(fam).states += 1;
+    ctx.nontrivial(fam, hash_bytes(w));
+    // an interpolated quantile between neighbours 2^32 apart carries the rounding of the fractional index
+    // times that gap (and DESIGN 5.5 lets an index within 1e-9 of an integer be read either way): absolute
+    // tolerance 1e-9 * 2^32; the seeded errors (wrapped differences, overflow panics) are of order 2^31
+    set_abs_tol(1e-9 * 4294967296.0);
+    check_ty::<i32>(fam, "i32", w, &x, &alpha, ctx);
+    check_ty::<Option<i32>>(fam, "Option<i32>", w, &x, &alpha, ctx);
+    check_ty::<i64>(fam, "i64", w, &x, &alpha, ctx);
+    set_abs_tol(0.0);
+}
 fn ord_alpha() -> Vec<X> {
     vec![None, Some(0.0), Some(1.0), Some(3.0)]
 }
@@ -387,7 +416,7 @@ fn check_nan_kinds(w: &[u8], alpha: &[X], ctx: &mut Ctx) {
 
 fn main() {
     let run = Run::from_args("C12");
-    let fam = Fam { alpha: vec![None, Some(0.0), Some(1.0), Some(2.0), Some(3.0)], max_len: run.pick(6, 8) };
+    let fam = Fam { alpha: vec![None, Some(0.0), Some(1.0), Some(2.0), Some(3.0)], max_len: run.pick(6, 8), unsigned_len: run.pick(5, 6) };
     if let Some(path) = &run.replay {
         let stored = load_replay(path).unwrap_or_else(|e| {
             eprintln!("MACHINERY-ERROR: {e}");
@@ -404,6 +433,8 @@ fn main() {
         } else if stored["case"]["family"] == "order-ordered-types" {
             let w = syms_from_json(&stored["case"]["word"]);
             check_ordered_types("order-ordered-types", &w, &decode(&w, &ord_alpha()), &mut ctx);
+        } else if stored["case"]["family"] == "order-int-extremes" {
+            check_int_extremes(&syms_from_json(&stored["case"]["word"]), &mut ctx);
         } else if stored["case"]["family"] == "order-nan-kinds" {
             let w = syms_from_json(&stored["case"]["word"]);
             check_nan_kinds(&w, &nan_alpha(), &mut ctx);
@@ -433,6 +464,8 @@ fn main() {
     total.merge(explore_tree(&OrdFam { alpha: ord_alpha(), max_len: run.pick(5, 6) }, run.threads));
     let nan_words: Vec<Vec<u8>> = all_words_upto(nan_alpha().len(), run.pick(5, 6)).into_iter().filter(|w| w.contains(&0)).collect();
     total.merge(par_items(&nan_words, run.threads, |w, ctx| check_nan_kinds(w, &nan_alpha(), ctx)));
+    let ext_words = all_words_upto(ext_alpha().len(), run.pick(4, 5));
+    total.merge(par_items(&ext_words, run.threads, |w, ctx| check_int_extremes(w, ctx)));
     let long = long_series(!run.quick());
     total.merge(par_items(&long, run.threads, |(label, x), ctx| check_long(label, x, &fam.alpha, ctx)));
     let meta = Meta {
